@@ -49,6 +49,12 @@ DESIGNED = [
      "variant": {"carrier": "dense", "designation": "indices", "container": "dict", "int_h0": False, "level_jitter": True, "scale_exp": 0}},
     {"hermitian": True, "sizes": [4], "E": [3, 3, 6, 6],                                              # the same for a single block, sparse
      "variant": {"carrier": "sparse", "designation": "none", "container": "dict", "int_h0": False, "level_jitter": True, "scale_exp": 0}},
+    # a coarse tolerance (atol = 1/8, model and code alike) and levels equal within it only through their neighbours: 1, 1.09375, 1.1875 — kept together
+    # (`_transitive_closure` / `Closure.closure`).  The exact SymPy run decides equality exactly, so only the floating-point run is compared with the model.
+    {"hermitian": True, "sizes": [4], "E": ["1", "35/32", "38/32", "5"], "atol": "1/8",
+     "variant": {"carrier": "dense", "designation": "none", "container": "dict", "int_h0": False, "scale_exp": 0}},
+    {"hermitian": True, "sizes": [3, 2], "E": ["2", "67/32", "70/32", "9", "12"], "fd_tuple": [0], "atol": "1/8",
+     "variant": {"carrier": "sparse", "designation": "indices", "container": "dict", "int_h0": False, "scale_exp": 0}},
 ]
 
 def gen_problem(rnd, hermitian=True, force=None):
@@ -351,6 +357,7 @@ def run_impl_numeric(P, requests, v, rnd):
     before = snap(H._data if is_series else H); vec_before = snap(kw.get("subspace_eigenvectors"))
     fd_before = snap(P["fd_py"]) if isinstance(P["fd_py"], dict) else None
     if unit != 1.0: kw["atol"] = 1e-12 * unit
+    if P.get("atol"): kw["atol"] = float(P["atol"]) * unit
     Ht, U, Ud = block_diagonalize(H, fully_diagonalize=P["fd_py"], hermitian=P["hermitian"], **kw)
     S = {"H_tilde": Ht, "U": U, "U†": Ud}; out = []; handed = []
     for (name, i, j, n) in requests:
@@ -377,7 +384,7 @@ def to_json(P, requests, algo):
     d = P["d"]
     return json.dumps({"cmd": "bd", "algo": algo, "d": d, "blocks": P["blocks"], "nblocks": P["N"], "nparams": P["k"],
         "terms": [{"order": list(n), "mat": [gstr(m[a][b]) for a in range(d) for b in range(d)]} for n, m in P["terms"].items()],
-        "hermitian": P["hermitian"], "fd": P["fd"], "atol": "1/1000000000000",
+        "hermitian": P["hermitian"], "fd": P["fd"], "atol": (f'{P["atol"].numerator}/{P["atol"].denominator}' if P.get("atol") else "1/1000000000000"),
         "requests": [{"name": nm, "i": i, "j": j, "n": list(n)} for (nm, i, j, n) in requests]})
 
 def parse_model(line, d):
@@ -505,6 +512,7 @@ def main(seed, ncases, driver, out, mode="all"):
         force = DESIGNED[c] if c < len(DESIGNED) and (mode == "all" or not DESIGNED[c]["hermitian"]) else None
         if force: hermitian = force["hermitian"]
         P = gen_problem(rnd, hermitian, force)
+        if force and "atol" in force: P["atol"] = Fraction(force["atol"]); P["numeric_only"] = True
         while mode == "nhsafe" and d5_class(P): P = gen_problem(rnd, hermitian, None)      # (formats stream: non-Hermitian problems outside the class of finding D5)
         maxn = (3,) if P["k"] == 1 else (2, 1)
         if c % 5 == 4 and P["d"] <= 4:      # small problems to higher order (deletion of once-used terms, longer recurrences)
@@ -517,7 +525,7 @@ def main(seed, ncases, driver, out, mode="all"):
             if P["as_polynomial"]: stats["exact run given as one SymPy polynomial matrix"] = stats.get("exact run given as one SymPy polynomial matrix", 0) + 1
             layout = interleave(P, rnd) if rnd.random() < 0.5 else None
             if layout is not None: stats["interleaved subspace_indices (exact run)"] = stats.get("interleaved subspace_indices (exact run)", 0) + 1
-            impl = run_impl(P, reqs, layout)
+            impl = run_impl(P, reqs, layout) if not P.get("numeric_only") else None
         except Exception as e:
             impl = [("exc", type(e).__name__, str(e)[:100])] * len(reqs)
         t_impl += time.time() - t0
@@ -530,7 +538,7 @@ def main(seed, ncases, driver, out, mode="all"):
             failures.append({"case": c, "kind": "driver-rejected", "detail": line.strip(), "problem": ser_problem(P)}); continue
         model = parse_model(line, P["d"])
         nontrivial = False
-        for r, a, b in zip(reqs, impl, model):
+        for r, a, b in zip(reqs, impl if impl is not None else [], model):
             evals += 1
             if a[0] in ("exc", "err") or b[0] == "err":
                 if not (a[0] in ("exc", "err") and b[0] == "err"):
@@ -581,6 +589,7 @@ def main(seed, ncases, driver, out, mode="all"):
                 if err > 1e-9 * scale:
                     failures.append({"case": c, "kind": "value-mismatch-numeric", "carrier": carrier, "request": list(r[:3]) + [list(r[3])], "abs_err": err,
                                      "problem": ser_problem(P)}); break
+        if impl is None: nontrivial = True
         if (hermitian or mode in ("nh", "nhsafe")) and not any(f["case"] == c for f in failures) and impl and impl[0][0] != "exc":
             t0 = time.time()
             try:
